@@ -5,7 +5,7 @@ Two-run (relational) obligations on the real `resolve_object_constraints`:
  (P) permutation pairs   for every structure of the C26 catalogue (spec/C26_rules.systems) the solver is
                          run twice inside ONE symbolic session, on the same symbolic sizes / coordinates
                          / margins / offsets, with the constraint list in its written order and in a
-                         permuted order (all orders up to 24, seeded sample above; plus permuted object
+                         permuted order (all orders up to 12 in the quick tier and 120 in the thorough tier, seeded sample above; plus permuted object
                          lists).  On every joint path:  success(A) == success(B), and if both succeed
                          every resolved slice bound is equal.
  (S) state sweep         all 64 known/unknown patterns of two objects' cells (produced by declared sizes and
@@ -59,7 +59,7 @@ LEVEL_TEXT = "Deductive proof, for all integer/real parameter values, that every
 LEVEL_NOTE = "structures and order pairs enumerated; confluence for arbitrary systems is a pencil lemma; bounded permutation runs of the unmodified code as cross-check"
 BOUNDED_RULE = "bounded part: seeded random / planted concrete systems through the real code under up to 24 constraint orders and all object orders; outcome and slices must coincide"
 
-CAP = {"quick": 24, "thorough": 120}
+CAP = {"quick": 12, "thorough": 120}
 
 
 def _perm_chunk(chunk, seed, count):
